@@ -54,6 +54,7 @@ type profile struct {
 	staleP       int      // % of clients that keep using a bar after it left the display
 	narrowP      int      // % of scenarios with a container only a few columns wide
 	emptyMsgP    int      // % of wrapped decorators whose on-complete / on-abort message is empty
+	nilOut       bool     // some scenarios discard their output (C01/C02 only: they do not read frames)
 	builtinKinds []string // nil = all; elapsed and avgspeed print nothing on a bar that finished before its first frame
 	builtinP     int      // % of plain decorators turned into built-in ones (speed, ETA, elapsed, spinner, empty name), half of them width-synchronised
 }
@@ -102,6 +103,12 @@ func genMixed(seed uint64, fam string, pf profile) *Scenario {
 	sc.Width = pf.width
 	if r.Chance(pf.narrowP, 100) {
 		sc.Width = r.Pick(3, 6, 10, 16, 24) // decorators use up the row: later ones get no room
+	}
+	if pf.nilOut {
+		// WithOutput(nil) / WithDebugOutput(nil) discard: a third of the non-refreshing
+		// scenarios and a tenth of the auto-refreshing ones (their frames are not read)
+		r3 := common.NewRng(common.H(seed, "nilout"))
+		sc.NilOut = sc.Mode == "none" && r3.Chance(1, 3) || sc.Mode == "auto" && r3.Chance(1, 10)
 	}
 	sc.Pop = r.Chance(pf.popP, 100)
 	sc.Notifier = r.Chance(pf.notifierP, 100)
@@ -405,7 +412,7 @@ func genFor(prop, part string, seed uint64) *Scenario {
 	case "C04", "C18":
 		return genC04(seed, part, prop)
 	case "C01":
-		pf.narrowP, pf.emptyMsgP, pf.builtinP = 15, 30, 30
+		pf.narrowP, pf.emptyMsgP, pf.builtinP, pf.nilOut = 15, 30, 30, true
 		if part == "err" {
 			sc := genC15(seed, common.NewRng(seed).PickS("filler", "filler", "output"))
 			sc.Fam = "C01/err"
@@ -428,7 +435,7 @@ func genFor(prop, part string, seed uint64) *Scenario {
 			pf.slowP = 3
 		}
 	case "C02":
-		pf.narrowP, pf.emptyMsgP, pf.builtinP = 10, 30, 30
+		pf.narrowP, pf.emptyMsgP, pf.builtinP, pf.nilOut = 10, 30, 30, true
 		if part == "waiters" {
 			return genC02Waiters(seed)
 		}
